@@ -31,7 +31,11 @@ EXPLANATION = (
     "carquet_error_t*, every feasible error exit passes CARQUET_SET_ERROR or a callee that received the "
     "error object, and carquet_error_set bounds its message; (6) every store of NULL into a "
     "capacity-tracked buffer member is followed by a store to the capacity member before the capacity is "
-    "read again; (7) count_leaves and the schema walk decide 'leaf' by the same predicate. Decides these "
+    "read again; (7) count_leaves and the schema walk decide 'leaf' by the same predicate; (9) no bounds guard "
+    "of the reader adds or multiplies an unbounded 32-bit value taken from the input before widening it to "
+    "the 64-bit size it is compared with (directly or through a local); (10) a member of the reader object "
+    "that is freed outside the destructor is assigned again before the function returns, so the destructor "
+    "cannot free it a second time. Decides these "
     "clauses, not arithmetic adequacy of every guard outside the grids, total running time, nor leaks "
     "inside zlib/zstd.")
 
